@@ -21,6 +21,10 @@ theorem str_safe {s : FStr} (hs : WF c s) : OkR (str s) := by
   · exact okr_read (by have := hs.1; have := hs.2.1; omega)
   · exact okr_ok _
 
+theorem streamView_safe {s : FStr} (hs : WF c s) : OkR (streamView s) := by
+  unfold streamView
+  exact okr_read (by have := hs.1; have := hs.2.1; omega)
+
 theorem wf_mem_zero {s : FStr} (hs : WF c s) : (0 : Byte) ∈ s.buf := List.mem_of_getElem? hs.2.2
 
 theorem cstrView_safe {s : FStr} (hs : WF c s) : OkR (cstrView s) := by
